@@ -123,7 +123,10 @@ func (x *c16Run) multiColumn() {
 		}
 		// read back + form bookkeeping
 		inlineTotal := 8
-		type colInfo struct{ inlineSize, savings int; inline bool }
+		type colInfo struct {
+			inlineSize, savings int
+			inline              bool
+		}
 		var cols []colInfo
 		for k := 1; k <= ncol; k++ {
 			f := td.GetField(k, t0)
